@@ -96,7 +96,11 @@ class Check(object):
         key = jsonable(key)
         for f in self._findings:
             m = f.get("match", {})
-            if all(key.get(k) == v or (isinstance(v, list) and key.get(k) in v) for k, v in m.items()):
+
+            def _fits(m_):
+                return all(key.get(k) == v or (isinstance(v, list) and key.get(k) in v) for k, v in m_.items() if not k.startswith("_"))
+
+            if _fits(m) and ("cases" not in f or any(_fits(c) for c in f["cases"])):
                 h = self.known_hits.setdefault(f["id"], {"finding": f, "count": 0, "first": None})
                 h["count"] += 1
                 if h["first"] is None:
